@@ -843,7 +843,11 @@ impl<VM: VMBinding> CommonPlan<VM> {
             } else if #[cfg(feature = "marksweep_as_nonmoving")] {
                 self.nonmoving.prepare(_full_heap);
             } else {
-                self.nonmoving.prepare(_full_heap, None, UnlogBitsOperation::NoOp);
+                // In a generational plan the non-moving space is a mature space: a nursery GC
+                // does not trace its objects, so it must neither prepare nor sweep it.
+                if _full_heap {
+                    self.nonmoving.prepare(_full_heap, None, UnlogBitsOperation::NoOp);
+                }
             }
         }
     }
@@ -855,7 +859,10 @@ impl<VM: VMBinding> CommonPlan<VM> {
             } else if #[cfg(feature = "marksweep_as_nonmoving")] {
                 self.nonmoving.release();
             } else {
-                self.nonmoving.release(_full_heap, UnlogBitsOperation::NoOp);
+                // See `prepare_nonmoving_space`.
+                if _full_heap {
+                    self.nonmoving.release(_full_heap, UnlogBitsOperation::NoOp);
+                }
             }
         }
     }
